@@ -398,6 +398,73 @@ fn sampled_storage(rng: &mut Rng, pristine: &[u8], corpus: &[GrammarSrc]) -> (&'
 
 // ---- syscall faults -----------------------------------------------------
 
+/// See batch 0c in `work`.
+pub fn reference_form_grammars() -> Vec<String> {
+    const TARGETS: &[&str] = &["Num", "Kw", "'lit'", "Other", "S", "EMPTY", "STOP"];
+    // X = the target
+    const FORMS: &[&str] = &[
+        "X", "n=X", "n?=X", "X?", "X*", "X+", "X*[Comma]", "X+[Comma]", "n=X?", "n=X*", "n=X+", "n?=X*", "n=X*[Comma]", "n?=X+[Comma]",
+    ];
+    // R = the reference
+    const CONTEXTS: &[&str] = &["R", "R Semi", "Semi R", "Semi R Semi", "R | Semi", "R R", "Semi | R Semi", "R Semi R"];
+    let mut out = vec![];
+    for t in TARGETS {
+        for f in FORMS {
+            for c in CONTEXTS {
+                let r = f.replace('X', t);
+                let rhs = c.replace('R', &r);
+                let mut g = format!("S: {rhs};\n");
+                if *t == "Other" {
+                    g.push_str("Other: Num | Id;\n");
+                }
+                g.push_str("terminals\nSemi: ';';\n");
+                if *t == "Num" || *t == "Other" {
+                    g.push_str("Num: /\\d+/;\n");
+                }
+                if *t == "Other" {
+                    g.push_str("Id: /[a-z]+/;\n");
+                }
+                if *t == "Kw" {
+                    g.push_str("Kw: 'kw';\n");
+                }
+                if *t == "'lit'" {
+                    g.push_str("Lit: 'lit';\n");
+                }
+                if f.contains("[Comma]") {
+                    g.push_str("Comma: ',';\n");
+                }
+                out.push(g);
+            }
+        }
+    }
+    out
+}
+
+/// See batch 0d in `work`.
+pub fn meta_data_grammars(thorough: bool) -> Vec<String> {
+    const PROD: &[&str] = &["", "left", "right", "shift", "reduce", "5", "15", "nops", "nopse", "dynamic", "Kind", "left, 15", "right, 5, nops", "user: 1", "user: 'x', left"];
+    const TERM: &[&str] = &["", "left", "right", "shift", "reduce", "5", "15", "prefer", "finish", "nofinish", "dynamic", "15, left", "user: 1.5"];
+    let rule: &[&str] = if thorough { &["", "left", "right", "7", "nops", "nopse, 12", "Kind"] } else { &["", "right"] };
+    let wrap = |m: &str| if m.is_empty() { String::new() } else { format!(" {{{m}}}") };
+    let mut out = vec![];
+    for rm in rule {
+        for m1 in PROD {
+            for m2 in PROD {
+                for m3 in TERM {
+                    // E: binary operator twice (shift/reduce, three-way with the
+                    // longer production); A2/B2: reduce/reduce on the same input
+                    let g = format!(
+                        "S: E | A2 Semi | B2 Semi;\nE{}: E Plus E{} | E Plus E Plus{} | Num;\nA2: Id{};\nB2: Id{};\nterminals\nPlus: '+'{};\nSemi: ';';\nNum: /\\d+/;\nId: /[a-z]+/;\n",
+                        wrap(rm), wrap(m1), wrap(m2), wrap(m1), wrap(m2), wrap(m3)
+                    );
+                    out.push(g);
+                }
+            }
+        }
+    }
+    out
+}
+
 /// See batch 0b in `work`.
 pub fn rule_shape_grammars() -> Vec<String> {
     const SHAPES: &[&str] = &[
@@ -541,6 +608,59 @@ pub fn work(env: &Env, ctx: &Ctx, w: usize, nw: usize, plan: &Plan) -> Value {
             };
             let o = run_case(env, &case);
             record(ctx, &mut st, &case, "pristine-rule-shape", &o, counter, &mut viol);
+        }
+    }
+
+    // 0c. reference-form product (fault-free): every way of referencing a
+    //     symbol (bare, named, bool-named, with each repetition operator and
+    //     separator modifier) x every kind of target (regex terminal, string
+    //     terminal, inline string, non-terminal, the rule itself, EMPTY, STOP)
+    //     x position in the production, over LR x {LALR, PAGER, RN} and GLR.
+    for (k, text) in reference_form_grammars().into_iter().enumerate() {
+        for sp in 0..4u8 {
+            counter += 1;
+            if !mine(counter) {
+                continue;
+            }
+            let mut spec = if sp == 3 { Spec::glr_default() } else { Spec::lr_default() };
+            if sp < 3 {
+                spec.table = sp;
+            }
+            let case = Case {
+                grammar: GrammarSrc { id: format!("refform:{k}"), stem: "refform".into(), bytes: text.clone().into_bytes() },
+                damage: "none (reference-form product, fault-free baseline)".into(),
+                spec,
+                world: World::reference(),
+                actions: None,
+            };
+            let o = run_case(env, &case);
+            record(ctx, &mut st, &case, "pristine-reference-form", &o, counter, &mut viol);
+        }
+    }
+    // 0d. meta-data product (fault-free): a grammar with shift/reduce and
+    //     reduce/reduce conflicts on which every production-level, rule-level
+    //     and terminal-level disambiguation meta-data combination is tried,
+    //     over LR (prefer-shifts on/off) and GLR.
+    for (k, text) in meta_data_grammars(plan.thorough).into_iter().enumerate() {
+        for sp in 0..3u8 {
+            counter += 1;
+            if !mine(counter) {
+                continue;
+            }
+            let mut spec = if sp == 2 { Spec::glr_default() } else { Spec::lr_default() };
+            if sp < 2 {
+                spec.prefer_shifts = sp == 1;
+                spec.prefer_shifts_over_empty = sp == 1;
+            }
+            let case = Case {
+                grammar: GrammarSrc { id: format!("meta:{k}"), stem: "meta".into(), bytes: text.clone().into_bytes() },
+                damage: "none (meta-data product, fault-free baseline)".into(),
+                spec,
+                world: World::reference(),
+                actions: None,
+            };
+            let o = run_case(env, &case);
+            record(ctx, &mut st, &case, "pristine-meta-data", &o, counter, &mut viol);
         }
     }
 
